@@ -445,6 +445,32 @@ func checkChain(raw json.RawMessage) fw.Result {
 			res.Count("chain_relative_resolutions", 1)
 		}
 	}
+	// copy consistency: Copy() of every level's style on a fresh computation, modelled properties
+	// read on the copies only (seeded order), must equal the originals
+	w2, err := buildWorld(in.Doc.HTML, in.Doc.UA)
+	if err != nil {
+		return fw.Result{Verdict: fw.Inconclusive, Msg: err.Error()}
+	}
+	copies := map[string]pr.ElementStyle{}
+	for _, l := range in.Levels {
+		if st := w2.style(l.Tag, ""); st != nil {
+			copies[l.Tag] = st.Copy()
+		}
+	}
+	rng.Shuffle(len(items), func(i, j int) { items[i], items[j] = items[j], items[i] })
+	for _, it := range items {
+		lvl, e := in.Levels[it.l], in.Levels[it.l].Exp[it.e]
+		cp := copies[lvl.Tag]
+		if cp == nil {
+			continue
+		}
+		key := pr.PropsFromNames[e.Prop].Key()
+		if a, b := canon(cp.Get(key)), canon(w.style(lvl.Tag, "").Get(key)); a != b {
+			res.Fail("copy-differs", fmt.Sprintf("level %d <%s>: Get(%s) on a Copy() of the style (taken before anything was read) gives %s, the original gives %s\n  %s", it.l, lvl.Tag, e.Prop, a, b, in.Doc.HTML))
+			return res
+		}
+		res.Count("copy_checks", 1)
+	}
 	res.Nontrivial = relFS && relLen
 	return res
 }
